@@ -50,7 +50,15 @@ class RunnerS:
             if len(c) > 4:
                 l += "\t" + c[4]
             lines.append(l)
-        return vlib.run_lines([self.model], lines)
+        out = vlib.run_lines([self.model], lines)
+        # a model process that dies (stack / memory on a huge magnitude) takes the rest of its shard with it: re-run those
+        # lines one process each, so that only the line that really kills the model stays CRASH
+        bad = [i for i, o in enumerate(out) if o == "CRASH"]
+        if bad and len(bad) <= 4000:
+            again = vlib.run_lines([self.model], [lines[i] for i in bad], shards=len(bad))
+            for i, o in zip(bad, again):
+                out[i] = o
+        return out
 
 
 def sig(c):
@@ -99,7 +107,7 @@ def run_streams(chk, quick, n=None):
     ma = R.model_run(mcases)
     ra = R.model_run(rcases)
     per = len(BUDGETS) * 2
-    dist = {"ok": 0, "err": 0, "f70": 0, "passes_differ": 0, "model_skipped_reserved": 0,
+    dist = {"ok": 0, "err": 0, "f70": 0, "passes_differ": 0, "model_skipped_reserved": 0, "model_resource_limit": 0,
             "with_known_instr": 0, "with_unknown_instr": 0, "with_known_data": 0, "with_unknown_data": 0, "with_known_const": 0,
             "known_instr_only_before_repairs": 0}
     fam_dist = {}
@@ -139,6 +147,9 @@ def run_streams(chk, quick, n=None):
                     break
                 if skip_model:
                     dist["model_skipped_reserved"] += 1
+                elif cm[0] == "CRASH":
+                    # the extracted model ran out of stack / memory (magnitudes are C19's subject); counted, not compared
+                    dist["model_resource_limit"] += 1
                 elif ci != cm:
                     ndis += 1
                     what = "pass count" if sig(ci) == sig(cm) else "result"
